@@ -157,14 +157,35 @@ def walk_under(fn_node, decide):
                 root = root.value
             if isinstance(v, ast.Attribute) and isinstance(root, ast.Name):
                 vals[n.targets[0].id] = (text(v), root.id)
+            elif isinstance(v, ast.Compare) and not any(isinstance(x, ast.Call) for x in ast.walk(v)):
+                # a local naming a side-effect free test (`provided = name in variables`) stands for that test
+                used = [x.id for x in ast.walk(v) if isinstance(x, ast.Name)]
+                if used and n.targets[0].id not in used:
+                    vals[n.targets[0].id] = ("(%s)" % text(v), used[0])
+                    for u in used[1:]:
+                        if counts.get(u, 0) > 1:
+                            vals.pop(n.targets[0].id, None)
     params = {a.arg for a in fn_node.args.posonlyargs + fn_node.args.args + fn_node.args.kwonlyargs} if hasattr(fn_node, "args") else set()
-    alias = {k: v for k, (v, root) in vals.items() if counts.get(k) == 1 and k not in params and (counts.get(root, 0) == 0)}
+    alias = {k: v for k, (v, root) in vals.items() if counts.get(k) == 1 and k not in params
+             and (counts.get(root, 0) == 0 or (counts.get(root) == 1 and root in vals and root not in params))}
     alias_pat = _re.compile(r"(?<![\w.])(%s)(?![\w])" % "|".join(_re.escape(k) for k in alias)) if alias else None
 
     def canon(e):
         t, neg = canonical_atom(e)
         if alias_pat is not None:
-            t = alias_pat.sub(lambda m: alias[m.group(1)], t)
+            for _ in range(3):
+                t2 = alias_pat.sub(lambda m: alias[m.group(1)], t)
+                if t2 == t:
+                    break
+                t = t2
+            if t.startswith("(") and t.endswith(")") and t.count("(") == 1:
+                t = t[1:-1]
+                # `x = a not in b` used as atom: normalise like canonical_atom does
+                try:
+                    t, neg2 = canonical_atom(ast.parse(t, mode="eval").body)
+                    neg = neg != neg2
+                except SyntaxError:
+                    pass
         return t, neg
 
     def note(e, env):
